@@ -71,6 +71,7 @@ fn ev(op: &str, tbl: &str, s: &str, k: i64, ns: &str) -> serde_json::Map<String,
     m.insert("newcls".into(), json!(0));
     m.insert("firstcls".into(), json!(-1));
     m.insert("contig".into(), json!(true));
+    m.insert("must".into(), json!(false));
     m
 }
 
@@ -78,7 +79,25 @@ pub fn intern_drive(seed: u64, episodes: usize, len: usize, big: usize, out: &st
     let mut f = std::io::BufWriter::new(std::fs::File::create(out).expect("create out"));
     let mut master = Rng::new(seed);
     let strs = ["a", "b", "c", "x1", "http://e/1", "", "xml", "space", "id", "http://www.w3.org/XML/1998/namespace", "é", "A",
-                " a", "a ", " a ", "a\n", "\ta", " ", "a b", "Xml", "HTTP://E/1", "http://e/1/"];
+                " a", "a ", " a ", "a\n", "\ta", " ", "a b", "Xml", "HTTP://E/1", "http://e/1/", "zz", "other", "n1", "n2", "q1", "v1", "w&x"];
+    // texts for the opaque calls: accepted ones, and rejected ones that have registered new strings before the error
+    // (text, what an accepted parse of it has registered: (table, string, namespace of a name))
+    let texts: [(&str, &[(&str, &str, &str)]); 11] = [
+        ("<a xmlns='u1' xmlns:p='http://e/1' p:b='1'><p:c x1='2'/><b/></a>",
+         &[("ns", "u1", ""), ("ns", "http://e/1", ""), ("px", "p", ""), ("name", "a", "u1"), ("name", "b", "u1"), ("name", "c", "http://e/1"),
+           ("name", "b", "http://e/1"), ("name", "x1", "")]),
+        ("<n1:a xmlns:n1='w&amp;x' xmlns='w&#38;x'><b c='1'/></n1:a>",
+         &[("ns", "w&x", ""), ("px", "n1", ""), ("name", "a", "w&x"), ("name", "b", "w&x"), ("name", "c", "")]),
+        ("<zz:a/>", &[]),
+        ("<a><other:b/></a>", &[]),
+        ("<a xmlns:n1='v1'><n1:b/><n2:c/></a>", &[]),
+        ("<a xmlns:q1='v1'><q1:b></a>", &[]),
+        ("<n1:a xmlns:n1='w&amp;x' xmlns='w&amp;x'><b n2:c='1'/></n1:a>", &[]),
+        ("<a b='1' b='2'/>", &[]),
+        ("<a><zz/><q1/></a>", &[("name", "zz", ""), ("name", "q1", ""), ("name", "a", "")]),
+        ("<a xmlns:n2='v1' n2:zz='1' other='2'/>", &[("ns", "v1", ""), ("px", "n2", ""), ("name", "zz", "v1"), ("name", "other", "")]),
+        ("<a xmlns:zz='v1'><zz:n1/></b>", &[]),
+    ];
     for ep in 0..episodes {
         let mut r = master.fork();
         let mut x = Xot::new();
@@ -97,10 +116,14 @@ pub fn intern_drive(seed: u64, episodes: usize, len: usize, big: usize, out: &st
         writeln!(f, "{}", J::Object(m)).unwrap();
         let mut bulk_next = 0i64;
         let nsteps = if ep == 0 && big > 0 { 6 } else { len };
+        // a panic of the code under test is data: it is logged as an event (the episode ends there)
+        let mut last = String::new();
+        let outcome = std::panic::catch_unwind(std::panic::AssertUnwindSafe(|| {
         for step in 0..nsteps {
             let roll = if ep == 0 && big > 0 { [90, 90, 90, 92, 92, 93][step % 6] } else { r.below(100) };
             let s = *r.pick(&strs);
             let nss = *r.pick(&["", "u1", "http://e/1", "http://www.w3.org/XML/1998/namespace", " u1", "u1 ", "U1"]);
+            last = format!("step {step} roll {roll} string {s:?} namespace {nss:?}");
             let mut m;
             if roll < 22 {
                 m = ev("add", "ns", s, -1, "");
@@ -255,16 +278,68 @@ pub fn intern_drive(seed: u64, episodes: usize, len: usize, big: usize, out: &st
                     writeln!(f, "{}", J::Object(m2)).unwrap();
                 }
                 continue;
-            } else if roll < 96 {
+            } else if roll < 93 {
                 m = ev("clone", "", "", -1, "");
                 x = x.clone();
             } else if roll < 98 {
                 m = ev("opaque", "", "parse", -1, "");
-                let _ = x.parse("<a xmlns='u1' xmlns:p='http://e/1' p:b='1'><p:c x1='2'/><b/></a>");
+                let (t, registered) = *r.pick(&texts);
+                let accepted = match r.below(3) {
+                    0 => x.parse(t).is_ok(),
+                    1 => x.parse_fragment(t).is_ok(),
+                    _ => x.parse_bytes(t.as_bytes()).is_ok(),
+                };
+                writeln!(f, "{}", J::Object(m)).unwrap();
+                // what an accepted parse registered implicitly must be found by the read-only lookups
+                if accepted {
+                    for (tbl, key, kns) in registered.iter() {
+                        let mut g = ev("get", tbl, key, -1, kns);
+                        g.insert("must".into(), json!(true));
+                        match *tbl {
+                            "ns" => {
+                                if let Some(id) = x.namespace(key) {
+                                    let (cl, fresh) = c.ns(id);
+                                    g.insert("cls".into(), json!(cl));
+                                    g.insert("fresh".into(), json!(fresh));
+                                    g.insert("has".into(), json!(true));
+                                    g.insert("rb".into(), split_key(x.namespace_str(id), key, -1));
+                                }
+                            }
+                            "px" => {
+                                if let Some(id) = x.prefix(key) {
+                                    let (cl, fresh) = c.px(id);
+                                    g.insert("cls".into(), json!(cl));
+                                    g.insert("fresh".into(), json!(fresh));
+                                    g.insert("has".into(), json!(true));
+                                    g.insert("rb".into(), split_key(x.prefix_str(id), key, -1));
+                                }
+                            }
+                            _ => {
+                                let found = x.namespace(kns).and_then(|nsid| x.name_ns(key, nsid));
+                                if let Some(id) = found {
+                                    let (cl, fresh) = c.name(id);
+                                    g.insert("cls".into(), json!(cl));
+                                    g.insert("fresh".into(), json!(fresh));
+                                    g.insert("has".into(), json!(true));
+                                    let (l, n) = x.name_ns_str(id);
+                                    g.insert("rb".into(), split_key(l, key, -1));
+                                    g.insert("rbns".into(), json!(n));
+                                }
+                            }
+                        }
+                        writeln!(f, "{}", J::Object(g)).unwrap();
+                    }
+                }
+                continue;
             } else {
                 m = ev("opaque", "", "html5", -1, "");
                 let _ = x.html5();
             }
+            writeln!(f, "{}", J::Object(m)).unwrap();
+        }
+        }));
+        if outcome.is_err() {
+            let m = ev("panic", "", &last, -1, "");
             writeln!(f, "{}", J::Object(m)).unwrap();
         }
     }
